@@ -148,8 +148,8 @@ DeclDoc(n) ==
                              ev |-> <<Se("r"), Ch(<<U(233)>>), Ee("r")>>]
     [] n = "decl-ascii"  -> [doc |-> <<S("<?xml version=\"1.0\" encoding=\"US-ASCII\"?>", 41), S("<r>", 3), U(233), S("</r>", 4)>>, wf |-> FALSE,
                              ev |-> <<>>]                                             \* a byte above 127 in a US-ASCII entity
-    [] n = "decl-sjis"   -> [doc |-> <<S("<?xml version=\"1.0\" encoding=\"Shift_JIS\"?>", 42), S("<r>", 3), Byte(130), Byte(160), S("a", 1), Byte(131), Byte(65), S("</r>", 4)>>, wf |-> TRUE,
-                             ev |-> <<Se("r"), Ch(<<U(12354), S("a", 1), U(12450)>>), Ee("r")>>]
+    [] n = "decl-sjis"   -> [doc |-> <<S("<?xml version=\"1.0\" encoding=\"Shift_JIS\"?>", 42), S("<r>", 3), Byte(130), Byte(160), Byte(130), Byte(160), Byte(130), Byte(160), Byte(130), Byte(160), Byte(131), Byte(65), Byte(130), Byte(160), S("</r>", 4)>>, wf |-> TRUE,
+                             ev |-> <<Se("r"), Ch(<<Un(12354, 4), U(12450), U(12354)>>), Ee("r")>>]   \* an ICU transcoder: a lead byte alone in a read
     [] n = "decl-long"   -> [doc |-> <<S("<?xml version=\"1.0\"", 19), Un(32, 200), S("encoding=\"UTF-8\" standalone=\"yes\"?>", 35), S("<r>", 3), U(8364), S("</r>", 4)>>, wf |-> TRUE,
                              ev |-> <<Se("r"), Ch(<<U(8364)>>), Ee("r")>>]
     [] n = "bom-utf8"    -> [doc |-> <<Byte(239), Byte(187), Byte(191), S("<r>", 3), U(233), S("</r>", 4)>>, wf |-> TRUE,
